@@ -136,4 +136,15 @@ def valuations(n: int):
         fl.append(fl[-1] * (1 + rnd.uniform(-0.01, 0.01)))
     make("random floats", fl, lambda r: r.uniform(0.01, 0.3))
     make("double top", [100.0 + min(k % 7, 7 - k % 7) for k in range(n)], lambda r: 0.0)
+    # a market that goes quiet: the last third of the candles is flat (open = high = low = close) without a single trade - legal
+    # candles on which 0/0 and x/0 guards are what decides a value
+    quiet = {}
+    for tag in ("c", "b"):
+        for k in range(n):
+            if k < n - max(n // 3, 1):
+                c = 100.0 + (k * 7 % 5) - (k * 3 % 4) + (3.0 if tag == "b" else 0.0)
+                quiet[(tag, k)] = (0.0, c - 0.5, c, c + 1.0, c - 1.5, float(1 + k % 4))
+            else:
+                quiet[(tag, k)] = (0.0, 101.0, 101.0, 101.0, 101.0, 0.0)
+    out.append(("quiet tail (flat candles, no trades)", lambda tag, k, col, rows=quiet: rows[(tag, k)][col]))
     return out
